@@ -591,6 +591,11 @@ def config_render(cfg, rng=None):
         L.append("[WhitelistedOrigins]")
         for k in sorted(cfg["wo"]):
             L.append("%s = true" % _toml_str(k))
+    if cfg.get("wo_off"):  # origins switched off by "= false": present in the table, not whitelisted
+        if not cfg.get("wo"):
+            L.append("[WhitelistedOrigins]")
+        for k in sorted(cfg["wo_off"]):
+            L.append("%s = false" % _toml_str(k))
     toml = ("\n".join(L) + "\n").encode("utf-8")
     return toml, config_token(cfg)
 
@@ -617,7 +622,9 @@ SEC = 10 ** 9
 NICK_POOL = [b"Foo[1]", b"foo{1}", b"alice", b"Alice", b"bob", b"BOB", b"carol", b"dave\\", b"dave|", b"Eve`", b"eve`",
              b"x-y", b"_u", b"Zed^", b"zED^", b"q", b"W1", b"mallory", b"Trent", b"peggy{}", b"PEGGY[]"]
 BAD_NICKS = [b"9lives", b"b@d", b"waytoolongnickname_aaaaaaaaaaaaaaaaaaaaaaaa", b"M\xc3\xbcller", b"NickServ", b"xserv",
-             b"-dash", b"a!b", b"a b", b":colon", b"tab\there", b"\xc3\x9cber"]
+             b"-dash", b"a!b", b"a b", b":colon", b"tab\there", b"\xc3\x9cber",
+             # characters that fold onto ASCII letters under Unicode case folding (a case-insensitive regexp would accept them)
+             b"\xc5\xbfecure", b"ma\xc5\xbf\xc5\xbf", b"\xe2\x84\xaaelvin", b"bo\xc4\xb1", b"\xc4\xb0rc"]
 CHAN_POOL = [b"#Chan", b"#chan", b"#\xc3\x9c", b"#\xc3\xbc", b"#test", b"#a", b"#secret", b"#Foo[1]", b"#foo{1}", b"#x-y"]
 BAD_CHANS = [b"chan", b"#" + b"x" * 40, b"#bell\x07", b"&local", b"#", b"#a:b", b"", b"#\xc4\xb0x", b"0"]
 PSEUDO_POOL = [b"NickServ", b"ChanServ", b"OperServ", b"BotServ", b"Enforcer", b"Global"]
@@ -880,6 +887,8 @@ class Gen(object):
             cfg["banned"] = {r.choice([b"10.0.0.1", b"10.0.0.7", b"2001:db8::3"]): r.choice([b"spam", b"go away"])}
         if r.random() < 0.08:
             cfg["wo"] = [b"https://webchat.example.com"]
+        if r.random() < 0.12:
+            cfg["wo_off"] = [r.choice([b"https://old.example.com", b"http://localhost:8080"])]
         return cfg
 
     def _probe(self):
